@@ -18,6 +18,8 @@ def build(rng, n, m, rects, place):
     tok = [0]
     def texts():
         out = []
+        # (a cell other than the first may also hold one paragraph of white space only, or an empty one)
+        if tok[0] > 0 and rng.random() < 0.12: return [rng.choice([' ', '  ', '', '\u00a0'])]
         for _ in range(rng.choice([1, 1, 2])):
             tok[0] += 1; out.append(f'«{tok[0]}»' + rng.choice(['', 'x', ' y']))
         return out
@@ -31,17 +33,17 @@ def build(rng, n, m, rects, place):
     hid = {}
     style = {}          # paragraph text -> heading level (the first paragraph of some cells is a heading)
     for k, ts in enumerate(tx):
-        if rng.random() < 0.3: style[ts[0]] = rng.choice([1, 2, 3])
+        if rng.random() < 0.3 and '«' in ts[0]: style[ts[0]] = rng.choice([1, 2, 3])      # (keyed by text: only texts with a token are unique)
     fmt = {}            # paragraph text -> run formatting (copies must carry the formatting of the cell they repeat)
     for ts in tx:
         for t in ts:
-            if rng.random() < 0.3: fmt[t] = rng.choice([('<w:b/>', 'b'), ('<w:i/>', 'i'), ('<w:strike/>', 's')])
+            if rng.random() < 0.3 and '«' in t: fmt[t] = rng.choice([('<w:b/>', 'b'), ('<w:i/>', 'i'), ('<w:strike/>', 's')])
     def para(t):
         ppr = f'<w:pPr><w:pStyle w:val="Heading{style[t]}"/></w:pPr>' if t in style else ''
         rpr = f'<w:rPr>{fmt[t][0]}</w:rPr>' if t in fmt else ''
         return f'<w:p>{ppr}<w:r>{rpr}<w:t xml:space="preserve">{t}</w:t></w:r></w:p>'
     def hstr(x):
-        y = f'<{fmt[x][1]}>{x}</{fmt[x][1]}>' if x in fmt else x
+        y = f'<{fmt[x][1]}>{x}</{fmt[x][1]}>' if x in fmt and x != '' else x       # a run without text emits no string, hence no tags
         return f'<h{style[x]}>{y}</h{style[x]}>' if x in style else y
     xml, expected0 = render(rects, n, m, tx, spell, para=para, hidden=lambda k, a: hid.setdefault((k, a), rng.choice(HID))[0], tracked=rng if rng.random() < 0.4 else None)
     def expected(dup, html=False):
@@ -136,7 +138,8 @@ def run(ctx):
     n_cases = 70 if ctx.quick else 3000
     for k in range(n_cases):
         n, m = rng.randint(1, 5), rng.randint(1, 5)
-        case(ctx, rng, n, m, random_tiling(rng, n, m), rng.choice(PLACES))
+        if k % 12 == 5: n, m = rng.randint(1, 2), rng.randint(10, 13)       # a wide grid: spans of ten and more columns
+        case(ctx, rng, n, m, random_tiling(rng, n, m, 0.8 if m >= 10 else 0.45), rng.choice(PLACES))
     if not ctx.quick:
         cnt = 0
         for n in range(1, 7):
